@@ -132,3 +132,17 @@ func (ex *Exec) resolveInstance(st *State, key string, names []string, args []Va
 	}
 	return found, fkey
 }
+
+// autoInlinePkg: contract-less functions of the repository, and of the dependency packages named by an
+// `autoinline <pkgpath>` directive, are executed in place (their bodies become part of the caller's proof).
+func (ex *Exec) autoInlinePkg(path string) bool {
+	if len(path) >= len(cadenceMod) && path[:len(cadenceMod)] == cadenceMod {
+		return true
+	}
+	for _, p := range ex.P.CS.AutoInline {
+		if p == path {
+			return true
+		}
+	}
+	return false
+}
